@@ -482,6 +482,12 @@ def prefix_expr(e, p):
         return ["in", prefix_expr(e[1], p), items] + e[3:]
     if k == "dyn":
         return ["dyn", p + e[1]]
+    if k == "el":
+        return ["el", p + e[1]] + e[2:]
+    if k in ("sz", "sum"):
+        return [k, p + e[1]]
+    if k == "inl":
+        return ["inl", prefix_expr(e[1], p), p + e[2]]
     return e
 
 
@@ -496,6 +502,8 @@ def prefix_stmt(s, p):
         return ["implies", prefix_expr(s[1], p), [prefix_stmt(b, p) for b in s[2]]]
     if k == "unique":
         return ["unique", [prefix_expr(e, p) for e in s[1]]]
+    if k == "foreach":
+        return ["foreach", p + s[1], s[2], s[3], [prefix_stmt(b, p) for b in s[4]]]
     return s
 
 
